@@ -1600,6 +1600,29 @@ def gen_C09(tier, rng):
                 ins.append(("takevec", 0))
                 ins.append(("obs", len(args)))
             cases.append(case("noref", ins, "untracked_result:%s" % op[0]))
+    # an operand switched off AFTER the result was recorded: the closure still runs, with that operand's flag
+    # false, and must return nothing for it (the `None` arm of every derivative closure)
+    late = unary + [("reshape", [4]), ("reshape", [2, 2]), ("ln",), ("recip",), ("add",), ("mul",), ("sub",),
+                    ("div",), ("matmul", False, False), ("matmul", True, False), ("matmul", False, True),
+                    ("matmul", True, True), ("conv", 1, 1), ("axpy", 0.5)]
+    for op in late:
+        binary = op[0] in ("add", "mul", "sub", "div", "matmul", "axpy", "conv")
+        for off in ([0], [1], [0, 1]) if binary else ([0],):
+            for how in ("stop", "untracked"):
+                dims = [2, 2] if op[0] != "conv" else [1, 2, 2]
+                ins = [("leaf", True, dims, [1.0, 2.0, 3.0, 4.0])]
+                args = [0]
+                if binary:
+                    ins.append(("leaf", True, dims if op[0] != "conv" else [1, 1, 1, 1],
+                                [2.0, 1.0, 1.0, 3.0] if op[0] != "conv" else [2.0]))
+                    args = [0, 1]
+                ins.append(("op", op, args))
+                r = len(ins) - 1
+                for o in off:
+                    ins.append((how, o))
+                ins += [("backward", r, None)] + [("grad", a) for a in args] + [("obs", a) for a in args] + [("obs", r)]
+                ins += [("backward", r, None)] + [("grad", a) for a in args]
+                cases.append(case("late_off", ins, "operand_switched_off_after_recording:%s" % op[0], rtol=1e-9))
     # only the additive term of matmul tracked
     for shape_c in ([2], [2, 2], [1, 2], [1]):
         for mask in itertools.product((False, True), repeat=3):
